@@ -2,10 +2,11 @@
 # Re-runs every seeded change (seeded/*/patch.diff) against the checks named in its meta.json
 # ("checks"); each must be reported by at least one of them, except those recorded as a stated limit
 # of the checks ("expected": "missed").  Scratch copies only; /repo is not touched.
+# usage: run_seeds.sh [name-substring]      (PAR=n runs n seeds at a time, default 3)
 cd "$(dirname "$0")/.."
-fail=0
-for d in seeded/*/; do
-  [ -f $d/patch.diff ] || continue
+filter=${1:-}
+one() {
+  d=$1
   checks=$(jq -r '.checks[]' $d/meta.json)
   exp=$(jq -r '.expected // "caught"' $d/meta.json)
   out=$(tools/tryseed.sh $d/patch.diff $checks 2>&1)
@@ -14,7 +15,17 @@ for d in seeded/*/; do
   elif [ "$exp" = missed ]; then
     echo "miss (recorded limit) seed $(basename $d) (checks: $(echo $checks))"
   else
-    echo "MISS seed $(basename $d) (checks: $(echo $checks))"; fail=1
+    echo "MISS seed $(basename $d) (checks: $(echo $checks))"
   fi
-done
-exit $fail
+}
+export -f one
+out=$(mktemp /tmp/seeds.out.XXXXXX)
+for d in seeded/*/; do
+  [ -f $d/patch.diff ] || continue
+  [ -z "$filter" ] || [[ "$d" == *$filter* ]] || continue
+  echo $d
+done | xargs -P ${PAR:-3} -I{} bash -c 'one {}' | tee $out
+rc=0
+grep -q "^MISS" $out && rc=1
+rm -f $out
+exit $rc
